@@ -348,7 +348,7 @@ theorem encBatch_length (crc : Bytes → Nat) (b : Batch) : (encBatch crc b).len
 
 def recordsOf (b : Batch) : List DRec := b.recs.map (toDRec b.base b.firstTs)
 
-theorem decodeBatchRecords_enc (hg : c.guard = true) (hr : c.Reads) (hmk : Adm mk L) (crc : Bytes → Nat) (b : Batch)
+theorem decodeBatchRecords_enc (hg : c.guard = true) (hc0 : c.cnt32 = 0) (hr : c.Reads) (hmk : Adm mk L) (crc : Bytes → Nat) (b : Batch)
     (hw : b.Wf) (hL : recSize * (encBatch crc b).length ≤ L) :
     decodeBatchRecords mk c (encBatch crc b) = .ok (recordsOf b) := by
   have hrs : recSize = 112 := rfl
@@ -386,7 +386,7 @@ theorem decodeBatchRecords_enc (hg : c.guard = true) (hr : c.Reads) (hmk : Adm m
       have : (((encBatch crc b).length : Int) - 61).toNat = (encRecs b.recs).length := by omega
       rw [this]
       simp [encBatch, batchTail, drop_append_ge]
-    simp only [bind_ok, e5, hg, Bool.true_and]
+    simp only [bind_ok, e5, hg, Bool.true_and, countExceeds_std hc0 hc32]
     -- the count sanity check must let the batch through: `count_check_admits` with the code's divisor 1
     have hgd : ¬ ((b.recs.length : Int) > ((encRecs b.recs).length : Int)) := by
       have := count_check_admits b.recs 1 (Nat.le_refl _) (by decide)
@@ -409,7 +409,7 @@ theorem encBatches_length_ge (crc : Bytes → Nat) (bs : List Batch) : 61 * bs.l
     have := encBatch_length crc b
     simp only [encBatches, List.length_append, List.length_cons]; omega
 
-theorem decodeBatches_enc (hg : c.guard = true) (hr : c.Reads) (hmk : Adm mk L) (crc : Bytes → Nat) (bs : List Batch)
+theorem decodeBatches_enc (hg : c.guard = true) (hc0 : c.cnt32 = 0) (hr : c.Reads) (hmk : Adm mk L) (crc : Bytes → Nat) (bs : List Batch)
     (hw : ∀ b ∈ bs, b.Wf) : ∀ (fuel : Nat), bs.length < fuel → (encBatches crc bs).length < 2 ^ 31 →
     recSize * (encBatches crc bs).length ≤ L →
     decodeBatches mk c fuel (encBatches crc bs) = .ok (bs.flatMap recordsOf) := by
@@ -450,7 +450,7 @@ theorem decodeBatches_enc (hg : c.guard = true) (hr : c.Reads) (hmk : Adm mk L) 
         rw [this]; simp
       rw [e2]
       simp only [bind_ok]
-      rw [decodeBatchRecords_enc hg hr hmk crc b (hw b (by simp)) (by rw [hrs]; omega)]
+      rw [decodeBatchRecords_enc hg hc0 hr hmk crc b (hw b (by simp)) (by rw [hrs]; omega)]
       simp only [bind_ok]
       have e3 : (encBatch crc b ++ encBatches crc t).drop (12 + ((batchTail b).length + 9)) = encBatches crc t := by
         have : 12 + ((batchTail b).length + 9) = (encBatch crc b).length := by omega
@@ -533,7 +533,7 @@ theorem buildSegment_seg (crc : Bytes → Nat) (interval : Int) (sbs : List SBat
 broker builds from them decodes — with the iceberg decoder and with the (fixed) sql decoder,
 under any allocator that grants 112 bytes per segment byte — to exactly the records sent:
 offsets, timestamps, keys, values (null ≠ empty) and headers. -/
-theorem decodeSegment_buildSegment_gen (hg : c.guard = true) (hr : c.Reads) (crc : Bytes → Nat) (interval created : Int)
+theorem decodeSegment_buildSegment_gen (hg : c.guard = true) (hc0 : c.cnt32 = 0) (hr : c.Reads) (crc : Bytes → Nat) (interval created : Int)
     (bs : List Batch) (hne : bs ≠ []) (hw : ∀ b ∈ bs, b.Wf) (hsz : (encBatches crc bs).length < 2 ^ 31)
     (hmk : Adm mk (recSize * ((encBatches crc bs).length + 48))) :
     ∃ a, buildSegment crc interval (bs.map (mkSB crc)) created = some a ∧
@@ -567,7 +567,7 @@ theorem decodeSegment_buildSegment_gen (hg : c.guard = true) (hr : c.Reads) (crc
   rw [e2]
   simp only [bind_ok]
   have hge := encBatches_length_ge crc bs
-  exact decodeBatches_enc hg hr (adm_mono hmk (by rw [hrs]; omega)) crc bs hw _ (by omega) hsz (Nat.le_refl _)
+  exact decodeBatches_enc hg hc0 hr (adm_mono hmk (by rw [hrs]; omega)) crc bs hw _ (by omega) hsz (Nat.le_refl _)
 
 
 /-! ### index -/
@@ -865,8 +865,8 @@ theorem _root_.KafVerif.C07.decodeBatchRecords_encBatch (crc : Bytes → Nat) (b
     (hl : recSize * (encBatch crc b).length ≤ lim) :
     decodeBatchRecords (goMakeLim lim) cfgIceberg (encBatch crc b) = .ok (recordsOf b) ∧
     decodeBatchRecords (goMakeLim lim) cfgSql (encBatch crc b) = .ok (recordsOf b) :=
-  ⟨decodeBatchRecords_enc rfl cfgIceberg_reads (adm_goMakeLim (Nat.le_refl _)) crc b hw hl,
-   decodeBatchRecords_enc rfl cfgSql_reads (adm_goMakeLim (Nat.le_refl _)) crc b hw hl⟩
+  ⟨decodeBatchRecords_enc rfl rfl cfgIceberg_reads (adm_goMakeLim (Nat.le_refl _)) crc b hw hl,
+   decodeBatchRecords_enc rfl rfl cfgSql_reads (adm_goMakeLim (Nat.le_refl _)) crc b hw hl⟩
 
 /-- **The sanity checks never reject a well-formed batch.**  Every encoded record has at least 7
 bytes, so `recordCount ≤ len(recordsData)/7 ≤ len(recordsData)`: the record-count check of
@@ -903,9 +903,9 @@ theorem _root_.KafVerif.C07.decodeSegment_buildSegment (crc : Bytes → Nat) (in
     ∃ a, buildSegment crc interval (bs.map (mkSB crc)) created = some a ∧
       decodeSegment (goMakeLim lim) cfgIceberg a.seg = .ok (bs.flatMap recordsOf) ∧
       decodeSegment (goMakeLim lim) cfgSql a.seg = .ok (bs.flatMap recordsOf) := by
-  obtain ⟨a, h1, h2⟩ := decodeSegment_buildSegment_gen (mk := goMakeLim lim) (c := cfgIceberg) rfl cfgIceberg_reads crc
+  obtain ⟨a, h1, h2⟩ := decodeSegment_buildSegment_gen (mk := goMakeLim lim) (c := cfgIceberg) rfl rfl cfgIceberg_reads crc
     interval created bs hne hw hsz (adm_goMakeLim hl)
-  obtain ⟨a', h1', h3⟩ := decodeSegment_buildSegment_gen (mk := goMakeLim lim) (c := cfgSql) rfl cfgSql_reads crc
+  obtain ⟨a', h1', h3⟩ := decodeSegment_buildSegment_gen (mk := goMakeLim lim) (c := cfgSql) rfl rfl cfgSql_reads crc
     interval created bs hne hw hsz (adm_goMakeLim hl)
   rw [h1] at h1'
   cases h1'
